@@ -279,6 +279,40 @@ def run(ctx):
                 continue
             done('R-MASK', name, bad, it)
         ctx.floor('numeric vector types with comparisons (%s)' % cfg, len(cmp_types), 34)
+        # Hash (generic over the hasher): what is fed to the hasher depends on every one of the N lanes and on nothing else
+        n_hash = 0
+        for name, it in sorted(F.items.items()):
+            if not it.get('generic') or not (it.get('trait') or '').endswith('Hash') or it.get('name') != 'hash':
+                continue
+            st_ = (it.get('self_ty') or '').lstrip('&')
+            if not is_mask_name(st_.rsplit('::', 1)[-1]):
+                continue
+            r = H.run(it['key'])
+            n_hash += 1
+            bad = r.abort
+            if not bad:
+                body = F.body(it['key'])
+                base, by_ref = strip_ref(F, body['locals'][1])
+                vi = vec_info(F, base)
+                lanes_atoms = set()
+                hidden_ = set(hidden_offsets(F, base))
+                for a, ia in r.atoms.items():
+                    if ia.arg == 0 and ia.off in [o for (o, sz_) in vi['lanes']] and ia.off not in hidden_:
+                        lanes_atoms.add(a)
+                fed = set()
+                for (d, deps, caller, line) in r.opaque:
+                    fed |= set(x for x in deps if x.op == 'atom')
+                self_atoms = set(a for a, ia in r.atoms.items() if ia.arg == 0)
+                missing = lanes_atoms - fed
+                extra = (fed & self_atoms) - lanes_atoms
+                if len(lanes_atoms) != vi['dim']:
+                    bad = 'lanes of the mask not found'
+                elif missing:
+                    bad = 'the hash ignores lane(s) at byte offset %s: values that compare unequal there always collide' % sorted(r.atoms[a].off for a in missing)
+                elif extra:
+                    bad = 'the hash depends on bytes that are not lanes of the mask (offset %s): equal masks can hash differently' % sorted(r.atoms[a].off for a in extra)
+            done('R-MASK', name, bad, it)
+        ctx.floor('mask Hash impls (%s)' % cfg, n_hash, 5)
         ctx.floor('mask types analysed (%s)' % cfg, len(mask_types), 5)
         for k, v in sorted(counts.items()):
             ctx.count('%s:%s' % (k, cfg), v)
